@@ -88,6 +88,15 @@ class DebugLogging:
             self.root.removeHandler(self.handler)
 
 
+PASSWORD_SHAPES = ['word', 'empty', 'long', 'nul', 'utf8']
+
+
+def make_password(rng, role, shape):
+    tag = rng.randbytes(6).hex()
+    return {'word': f'pass-{role}-{tag}'.encode(), 'empty': b'', 'nul': b'\x00', 'long': f'pass-long-{role}-{tag} '.encode() * 40,
+            'utf8': f'p\u00e4ssw\u00f6rd-{role}-{tag}-\U0001F511'.encode('utf-8')}[shape]
+
+
 class RefusingBackend(MemBackend):
     """once armed, the first chunk object whose deletion is requested can never be deleted"""
     armed = False
@@ -154,8 +163,9 @@ def _run_history(rng, scratch, cid, cipher, hashing, env):
             sibling.use()
     between()
     be = RefusingBackend()
-    pw = {'owner': b'pass-owner-' + rng.randbytes(6).hex().encode(), 'shared': b'pass-shared-' + rng.randbytes(6).hex().encode(),
-          'indep': b'pass-indep-' + rng.randbytes(6).hex().encode()}
+    # "for all passwords": the shapes rotate over users and histories - a word, the empty string, one NUL byte, a long
+    # passphrase, non-ASCII bytes
+    pw = {u: make_password(rng, u, PASSWORD_SHAPES[(cid + k) % len(PASSWORD_SHAPES)]) for k, u in enumerate(('indep', 'owner', 'shared'))}
     note1, note2 = f'note-alpha-{rng.randbytes(5).hex()}', f'note-beta-{rng.randbytes(5).hex()}'
     outputs = []          # (command, stdout, stderr)
     failures = []         # commands of the honest history that ended in an error
@@ -648,6 +658,8 @@ def check_case(ctx, rep: Report, h, encrypted=True):
     replay = {'cid': cid, 'cipher': h['cipher'], 'hashing': h['hashing'], 'seed': h['seed'], 'environment': env}
     rep.count('config:' + label.split(' [')[0])
     rep.count('env:cache=' + env['cache'])
+    for u_, p_ in sorted(h.get('passwords', {}).items()):
+        rep.count('password:' + ('empty' if p_ == b'' else 'one NUL byte' if p_ == b'\x00' else 'long' if len(p_) > 200 else 'non-ASCII' if any(b > 127 for b in p_) else 'word'))
     if env['debug']:
         rep.count('env:debug-logging')
     # ---- taint scan (C): model-free, does not depend on the lifting
